@@ -26,13 +26,13 @@ def config(prop, tier):
         cfg["event_weights"] = {"build": 10, "edit": 3, "torn_save": 1, "restore": 1, "delete": 0.5,
                                 "unreadable": 0.5, "duplicate": 1.5, "crash": 1, "spawn": 0.5, "copy_as": 1}
         cfg["mode_weights"] = [4, 3, 3]
-        cfg["runs"] = 105 if tier == "quick" else 400
+        cfg["runs"] = 84 if tier == "quick" else 400
     elif prop == "C18":
         cfg["tree_weights"] = {"catalogue": 3, "corpus": 5, "examples": 0.5, "soup": 0, "semsoup": 1.5, "graph": 3, "worldb": 3, "grammar": 0.3}
         cfg["event_weights"] = {"build": 10, "edit": 1.5, "torn_save": 0.3, "restore": 1.5, "delete": 0.2,
                                 "unreadable": 0.2, "duplicate": 0.5, "crash": 1.5, "spawn": 1, "copy_as": 0.5}
         cfg["mode_weights"] = [2, 5, 3]
-        cfg["runs"] = 66 if tier == "quick" else 260
+        cfg["runs"] = 54 if tier == "quick" else 260
     else:  # C16
         cfg["tree_weights"] = {"catalogue": 7, "corpus": 3, "examples": 1.5, "soup": 1.5, "semsoup": 6, "graph": 0.5, "worldb": 0.5, "grammar": 3}
         cfg["events"] = (8, 20) if tier == "quick" else (12, 36)
